@@ -80,7 +80,8 @@ def run(ctx):
         pick = [(y, m, d) for y in years for m in range(1, 13) for d in (1, 9, 10, 28, 29, 30, 31) if d <= dim(y, m)]
         tss = TSS[:2]
     else:
-        pick = [x for i, x in enumerate(dates) if i % 3 == off % 3 or x[2] >= 28]
+        # (every 6th date + the month ends: with the same-day reference times every 3rd date took > 90 min on a shared machine)
+        pick = [x for i, x in enumerate(dates) if i % 6 == rnd.randrange(6) or x[2] >= 28]
         tss = TSS[:3]
     cases = []
     ccases = []
